@@ -129,7 +129,14 @@ def affinityOK (s : Scenario) (all : List Placed) : Option String :=
       else
       let others := all.filter (fun b => b.pod.name != a.pod.name && selMatches t.matchLabels b.pod)
       match others.find? (fun b => !b.isNew && canUseDomainOf s a.pod b k) with
-      | some b => some s!"affinity: {a.pod.name} (term on {k}) started a new domain although {b.pod.name} was running in a domain it can use"
+      | some b =>
+        -- CLASSIFIES (never excuses): the pod has several OR-ed required node-affinity terms and under at least one of them
+        -- alone it cannot use the domain `b` runs in.  Karpenter schedules the pod as if it had only the term it is currently
+        -- trying, so while trying such a term it does not see `b` and lets the pod start a domain of its own.
+        let orTerms := a.pod.required.length ≥ 2 &&
+          a.pod.required.any (fun term => !canUseDomainOf s { a.pod with required := [term] } b k)
+        let tag := if orTerms then "affinity-or-terms" else "affinity"
+        some s!"{tag}: {a.pod.name} (term on {k}) started a new domain although {b.pod.name} was running in a domain it can use"
       | none =>
         let sameTerm (b : Placed) : Bool := b.pod.affinity.any (fun t' => !t'.anti && t'.required && t'.topologyKey == k && t'.matchLabels == t.matchLabels)
         match all.find? (fun b => b.isNew && b.pod.name != a.pod.name && sameTerm b && selMatches t.matchLabels b.pod &&
@@ -145,6 +152,20 @@ def launchLabels (pl : Pool) (it : IT) (o : Offering) : Labels :=
     ("topology.kubernetes.io/zone", o.zone), (Karp.Gen.Labels.capacityTypeLabelKey, o.ct), ("kubernetes.io/arch", it.arch),
     ("kubernetes.io/os", it.os.head?.getD "linux")]
 
+/-- the taints on the Node OBJECT as the kube-scheduler sees them now (used for the node inclusion policy of spread
+    constraints; both Karpenter's counting and the kube-scheduler read the object): a managed node that is not yet
+    initialized still carries its NodePool's startup taints, one that is not yet registered the `unregistered` taint.
+    (The scheduling view `nodeTaints` leaves those out because they are about to go away.) -/
+def objectTaints (s : Scenario) (n : Node) : List Taint :=
+  let pool := s.pool? n.pool
+  let poolTaints := match pool with | some p => p.taints | none => []
+  let startup := match pool with
+    | some p => if n.stage == "node" || n.stage == "registered" then p.startupTaints else []
+    | none => []
+  let unreg : List Taint := if n.pool != "" && n.stage == "node" then
+    [{ key := "karpenter.sh/unregistered", value := "", effect := "NoExecute" }] else []
+  n.taints ++ poolTaints ++ startup ++ unreg
+
 /-- the domains of key `k` that count for the skew of pod `p`, as the kube-scheduler will see them once the new nodes
     have joined: the domains of Node objects (and of the NodeClaims this pass creates) that satisfy the constraint's node
     inclusion policies.  Domains that merely COULD be created (a zone no node is in) do not count — Karpenter itself
@@ -153,7 +174,7 @@ def eligibleDomains (s : Scenario) (all : List Placed) (p : Pod) (k : String) (h
   let okFor (ls : Labels) : Bool := !honorAffinity || (nodeSelectorOK ls p.nodeSelector && requiredOK ls p.required)
   -- only Node objects count (an in-flight NodeClaim without a Node is not a node yet)
   let fromNodes := (s.nodes.filter (fun n => !n.deleting && n.stage != "claim")).filterMap (fun n =>
-    if okFor (nodeLabels s n) && (!honorTaints || (untolerated p.tolerations (nodeTaints s n)).isNone) then (nodeLabels s n).lookup k else none)
+    if okFor (nodeLabels s n) && (!honorTaints || (untolerated p.tolerations (objectTaints s n)).isNone) then (nodeLabels s n).lookup k else none)
   -- a NodeClaim of this pass counts if some launch it allows satisfies the inclusion policies
   let claimOK (c : Claim) : Bool :=
     match s.pool? c.pool with
@@ -201,7 +222,7 @@ def spreadOK (s : Scenario) (all : List Placed) : Option String :=
           match b.place with
           | .node n =>
             (!honor || (nodeSelectorOK (nodeLabels s n) a.pod.nodeSelector && requiredOK (nodeLabels s n) a.pod.required)) &&
-            (!honorT || (untolerated a.pod.tolerations (nodeTaints s n)).isNone)
+            (!honorT || (untolerated a.pod.tolerations (objectTaints s n)).isNone)
           | .claim _ cl =>
             (!honor || (domains s b k).all (fun d => elig.contains d)) && (!honorT || (untolerated a.pod.tolerations cl.taints).isNone)
         let count (dd : String) (onlyOld : Bool) : Nat :=
@@ -209,8 +230,14 @@ def spreadOK (s : Scenario) (all : List Placed) : Option String :=
         let minNow := match elig.map (fun dd => count dd false) with
           | [] => 0
           | x :: xs => xs.foldl min x
+        -- minDomains: the number of eligible domains also includes the domains of in-flight NodeClaims (no Node object yet,
+        -- but about to join exactly like the NodeClaims this pass creates)
+        let inflight := (s.nodes.filter (fun n => !n.deleting && n.stage == "claim")).filterMap (fun n =>
+          if (!honor || (nodeSelectorOK (nodeLabels s n) a.pod.nodeSelector && requiredOK (nodeLabels s n) a.pod.required)) &&
+             (!honorT || (untolerated a.pod.tolerations (nodeTaints s n)).isNone) then (nodeLabels s n).lookup k else none)
+        let numDomains := (elig ++ inflight).eraseDups.length
         let minNow := match c.minDomains with
-          | some md => if elig.length < md then 0 else minNow
+          | some md => if numDomains < md then 0 else minNow
           | none => minNow
         let skewNow := count d false - minNow
         -- the skew that was already there before this pass is not the scheduler's doing
